@@ -362,10 +362,14 @@ def runeLoop : Nat → Nat → St → M St
     | .done s => pure s
     | .retry bq s => runeLoop fuel bq s
 
+/-- the line / column bookkeeping at the start of `rune` -/
+def runePre (s : St) : St :=
+  let s := if s.r == 10 || s.r == escNewl then { s with line := s.line + 1, col := 0 } else s
+  { s with col := s.col + s.w }
+
 /-- `Parser.rune`; the returned rune is the new `p.r`. -/
 def rune (s : St) : M (Nat × St) := do
-  let s := if s.r == 10 || s.r == escNewl then { s with line := s.line + 1, col := 0 } else s
-  let s := { s with col := s.col + s.w }
+  let s := s.runePre
   let s ← runeLoop (s.total + 2) 0 s
   pure (s.r, s)
 
